@@ -61,6 +61,17 @@ CHECKS["C14"] = dict(
    note="Trusted: vf/sem.py, CLARABEL, stand-in mosek for the MOSEK half; solver failures inside the heuristic re-solve are inconclusive.",
    design="DESIGN.md §3 C14")
 
+CHECKS["C03"] = dict(
+   technique="property-based testing (Hypothesis): generated real members of each class (with exact / extremal parameters and all admissible subgradient choices) executed in lock-step with PEPit; oracle = every generated class constraint / LMI evaluated at the concrete samples",
+   text="Generated-input search over the 24 classes, member families (quadratics with prescribed spectrum, max-affine, norms, Huber / log-cosh sums, indicators, support functions, rotations-scalings, projections, translations, matrices with prescribed singular values ...), dimensions, sample histories and subgradient selections: every scalar constraint, LMI and partition constraint PEPit generates must hold on the real samples (no solver involved). Extremal members make constraints nearly active.",
+   note="Trusted: vf/members.py (membership by construction, spot-checked by a definitional test on random pairs), vf/sem.py. Generated members are a strict subset of each class; C04 covers the rest by exact comparison with the documented conditions.",
+   design="DESIGN.md §3 C03, §2.4")
+CHECKS["C17"] = dict(
+   technique="property-based testing (Hypothesis): generated solved sample histories; oracle = position of every class constraint in the tables against the pair whose documented condition it carries (matched by affine functional), table shapes / labels, dual entries, constraint names",
+   text="Generated-input search over classes, histories, named / unnamed points and functions, single and repeated solves: each class constraint must sit in exactly one cell, at the pair of samples whose documented condition it denotes; dual tables have one row / column per recorded sample, the multiplier at that cell and zero elsewhere; names spell function, condition and pair.",
+   note="Trusted: vf/refconds.py, vf/sem.py, CLARABEL.",
+   design="DESIGN.md §3 C17")
+
 NOT_APPLICABLE = []
 
 def main():
